@@ -154,6 +154,164 @@ def gradients_are_inputs(ctx, rep, rule: str) -> None:
     rep.floor(rule, "in-place writes in the preconditioner-list and matrix modules", n, 8)
 
 
+def tensor_arguments_are_inputs(ctx, rep, rule: str, module: str = "matrix_functions", only: tuple[str, ...] | None = None) -> None:
+    """The matrix routines are functions of their tensor arguments: no in-place operation (`x.add_()`, `x += …`, `out=x`,
+    `x[...] = …`) inside a function of the module may land in storage that may belong to one of that function's Tensor
+    parameters.  Local may-alias analysis: a name may alias a parameter if some assignment to it is the parameter, an alias, a
+    view of an alias, or a possibly-copying conversion of one (`.to()`, `.contiguous()`, `.reshape()` return the receiver itself
+    for some inputs).  `A_ridge = A.add_(eps * I)` where `A.add(…)` was meant shifts the caller's matrix on every call."""
+    from .. import tables as T
+
+    repo = ctx.repo
+    m = repo.modules.get(module)
+    if m is None:
+        raise AnalysisError(f"{rule}: module {module} not found")
+    n_funcs = n_sites = 0
+    for fi in sorted((f for f in repo.funcs.values() if f.module is m and f.parent is None), key=lambda f: f.qual):
+        if only is not None and fi.name not in only:
+            continue
+        a = fi.node.args
+        tparams = {x.arg for x in a.posonlyargs + a.args + a.kwonlyargs if x.annotation is not None and "Tensor" in ast.unparse(x.annotation)}
+        if not tparams:
+            continue
+        n_funcs += 1
+        alias: dict[str, set[str]] = {p_: {p_} for p_ in tparams}
+
+        def src(e) -> set[str]:
+            """parameters whose storage the value of e may share"""
+            if isinstance(e, ast.Name):
+                return set(alias.get(e.id, ()))
+            if isinstance(e, ast.Attribute):
+                return src(e.value) if e.attr in T.VIEW_ATTRS else set()
+            if isinstance(e, ast.Subscript):
+                return src(e.value)
+            if isinstance(e, ast.IfExp):
+                return src(e.body) | src(e.orelse)
+            if isinstance(e, ast.NamedExpr):
+                return src(e.value)
+            if isinstance(e, (ast.Tuple, ast.List)):
+                return set().union(*(src(x) for x in e.elts)) if e.elts else set()
+            if isinstance(e, ast.Call):
+                f = e.func
+                if isinstance(f, ast.Attribute):
+                    d = repo.dotted_of(fi.module, f)
+                    if d is not None and d.startswith("torch."):
+                        if d in T.VIEW_FUNCS or d in T.MAYBE_COPY_FUNCS or d.endswith("_"):
+                            return src(e.args[0]) if e.args else set()
+                        return set()
+                    if f.attr in T.VIEW_METHODS or f.attr in T.MAYBE_COPY_METHODS or (f.attr.endswith("_") and not f.attr.startswith("__")):
+                        return src(f.value)
+                return set()
+            return set()
+
+        changed = True
+        while changed:
+            changed = False
+            for st in A.walk_no_nested(fi.node):
+                pairs = []
+                if isinstance(st, ast.Assign):
+                    pairs = [(t, st.value) for t in st.targets]
+                elif isinstance(st, ast.AnnAssign) and st.value is not None:
+                    pairs = [(st.target, st.value)]
+                elif isinstance(st, ast.NamedExpr):
+                    pairs = [(st.target, st.value)]
+                elif isinstance(st, (ast.For, ast.comprehension)):
+                    pairs = [(st.target, st.iter)]
+                for tg, v in pairs:
+                    names = [x.id for x in ast.walk(tg) if isinstance(x, ast.Name)] if not isinstance(tg, ast.Name) else [tg.id]
+                    if isinstance(tg, (ast.Attribute, ast.Subscript)):
+                        continue
+                    s_ = src(v)
+                    for nm in names:
+                        if not s_ <= alias.get(nm, set()):
+                            alias.setdefault(nm, set()).update(s_)
+                            changed = True
+        for n in A.walk_no_nested(fi.node):
+            dst, op = None, None
+            if isinstance(n, ast.Call) and isinstance(n.func, ast.Attribute):
+                f = n.func
+                d = repo.dotted_of(fi.module, f)
+                if d is not None and d.startswith("torch."):
+                    if d.endswith("_") and n.args:
+                        dst, op = n.args[0], d
+                elif f.attr.endswith("_") and not f.attr.startswith("__") and f.attr not in T.VIEW_METHODS:
+                    dst, op = f.value, f.attr
+                out = A.keyword(n, "out")
+                if out is not None:
+                    n_sites += 1
+                    hit = sorted(src(out))
+                    rep.ob(rule, f"tensor-arguments-are-inputs:{fi.name}:out=", not hit, fi.loc(n), f"`out={ast.unparse(out)}` in {fi.name}" + (f" may write the caller's `{hit[0]}`" if hit else " writes a local tensor"), sample=False)
+            elif isinstance(n, ast.AugAssign):
+                dst, op = n.target, type(n.op).__name__ + "="
+                if isinstance(dst, ast.Name) and not (alias.get(dst.id)):
+                    dst = None
+            elif isinstance(n, ast.Assign) and any(isinstance(t, ast.Subscript) for t in n.targets):
+                dst, op = next(t for t in n.targets if isinstance(t, ast.Subscript)).value, "[...]="
+            if dst is None:
+                continue
+            n_sites += 1
+            hit = sorted(src(dst))
+            rep.ob(rule, f"tensor-arguments-are-inputs:{fi.name}:{op.replace('torch.', '')}", not hit, fi.loc(n), f"in-place `{op}` on `{ast.unparse(dst)[:60]}` in {fi.name}" + (f" may write storage of the caller's argument `{hit[0]}` (the routine must work on a copy: the caller keeps using that tensor — the optimizer's stored factor / eigenbasis, or the same matrix in a later call)" if hit else " lands in a tensor created inside the routine"), sample=(n_sites % 4 == 0))
+    rep.floor(rule, f"functions of {module} with Tensor parameters", n_funcs, 3 if only else 8)
+    rep.floor(rule, f"in-place sites examined in {module}", n_sites, 1 if only else 3)
+
+
+def _is_mutable_container_expr(e: ast.AST) -> bool:
+    if isinstance(e, (ast.List, ast.Dict, ast.Set, ast.ListComp, ast.DictComp, ast.SetComp)):
+        return True
+    return isinstance(e, ast.Call) and isinstance(e.func, ast.Name) and e.func.id in ("list", "dict", "set", "defaultdict", "OrderedDict", "deque", "bytearray")
+
+
+def no_shared_mutable_defaults(ctx, rep, rule: str) -> None:
+    """A default is evaluated once: a mutable container (list / dict / set) used as a function default, as a plain class
+    attribute default, or returned by a dataclass `default_factory` that hands out one module-level object instead of building a
+    new one, is shared by every call / instance that does not pass its own — a later in-place change through one of them
+    (`cfg.ignored_dims.append(0)`) silently changes all the others, including the library's own default configs."""
+    repo = ctx.repo
+    n = 0
+    for m in repo.modules.values():
+        if "test" in m.relpath.split("/")[-1] or "/tests/" in m.relpath or "/gpu_tests/" in m.relpath:
+            continue
+        for c in m.classes.values():
+            for st in c.node.body:
+                if not (isinstance(st, ast.AnnAssign) and st.value is not None and isinstance(st.target, ast.Name)):
+                    continue
+                v = st.value
+                fac = A.keyword(v, "default_factory") if isinstance(v, ast.Call) and (repo.dotted_of(m, v.func) or "").endswith("field") else None
+                if fac is not None:
+                    n += 1
+                    shared = None
+                    if isinstance(fac, ast.Lambda) and isinstance(fac.body, (ast.Name, ast.Attribute)):
+                        d = repo.dotted_of(m, fac.body)
+                        hit = repo.module_assign(repo.resolve_dotted(m, d)) if d else None
+                        if hit is not None and _is_mutable_container_expr(hit[1]):
+                            shared = f"`{ast.unparse(fac.body)}` = {ast.unparse(hit[1])[:40]} (one module-level container)"
+                    elif isinstance(fac, (ast.Name, ast.Attribute)):
+                        fi = repo.func_by_dotted(repo.resolve_dotted(m, repo.dotted_of(m, fac) or ""))
+                        if fi is not None:
+                            rets = [r.value for r in A.walk_no_nested(fi.node) if isinstance(r, ast.Return) and r.value is not None]
+                            for r in rets:
+                                if isinstance(r, (ast.Name, ast.Attribute)):
+                                    hit = repo.module_assign(repo.resolve_dotted(fi.module, repo.dotted_of(fi.module, r) or ""))
+                                    if hit is not None and _is_mutable_container_expr(hit[1]):
+                                        shared = f"{fi.name}() returns the module-level container `{ast.unparse(r)}`"
+                    rep.ob(rule, f"fresh-default:{c.name}.{st.target.id}", shared is None, f"{m.relpath}:{st.lineno}", f"default_factory of {c.name}.{st.target.id}" + (f" hands every instance the same object: {shared}" if shared else " builds a new object per instance (or an immutable / a config instance)"), sample=True)
+                elif _is_mutable_container_expr(v) and c.is_dataclass is False and not st.target.id.isupper():
+                    n += 1
+                    rep.ob(rule, f"fresh-default:{c.name}.{st.target.id}", False, f"{m.relpath}:{st.lineno}", f"class attribute {c.name}.{st.target.id} = {ast.unparse(v)[:40]} is one container shared by all instances")
+    for fi in repo.funcs.values():
+        rel = fi.module.relpath
+        if "test" in rel.split("/")[-1] or "/tests/" in rel or "/gpu_tests/" in rel:
+            continue
+        a = fi.node.args
+        for d in list(a.defaults) + [k for k in a.kw_defaults if k is not None]:
+            n += 1
+            if _is_mutable_container_expr(d):
+                rep.ob(rule, f"fresh-default:{short(fi.qual)}", False, fi.loc(d), f"mutable default argument `{ast.unparse(d)[:40]}` of {short(fi.qual)} is evaluated once and shared by every call")
+    rep.ob(rule, "fresh-default:function-defaults", True, "", f"{n} dataclass default factories, class attribute defaults and function default arguments examined", sample=True)
+    rep.floor(rule, "defaults examined", n, 20)
+
+
 def loop_var_leak(ctx, rep, rule: str, funcs: list[str]) -> None:
     """No use of a for-loop target variable after its loop (it would silently refer to the last iteration only)."""
     repo = ctx.repo
